@@ -8,5 +8,9 @@ Separate Extraction
   EdInst.m_clear EdInst.m_ack EdInst.m_set_options EdInst.m_set_engine EdInst.m_clear_syl
   EdInst.m_jump_next EdInst.m_jump_prev EdInst.m_jump_first EdInst.m_jump_last EdInst.m_learn EdInst.m_unlearn
   EdInst.m_candidates EdInst.m_total_page EdInst.m_valid_conv EdInst.m_engine_alts EdInst.bt_insert
+  EdInst.ml_init EdInst.ml_key EdInst.ml_select EdInst.ml_cancel EdInst.ml_start_selecting EdInst.ml_commit
+  EdInst.ml_clear EdInst.ml_ack EdInst.ml_set_options EdInst.ml_set_engine EdInst.ml_set_layout EdInst.ml_clear_syl
+  EdInst.ml_jump_next EdInst.ml_jump_prev EdInst.ml_jump_first EdInst.ml_jump_last EdInst.ml_learn EdInst.ml_unlearn
+  EdInst.ml_candidates EdInst.ml_total_page EdInst.ml_syl_read EdInst.ml_layout EdInst.ml_valid_conv EdInst.ml_engine_alts
   Editor.display Editor.conversion Editor.ed_page_no Conversion.tiling_ok Conversion.display_of
   Composition.ce_len Syllable.spell.
